@@ -95,6 +95,7 @@ def run_jobs(jobs, nworkers):
     q.put(j)
   results = {}
   lock = threading.Lock()
+  t_start = time.time()
 
   def loop():
     w = WorkerProc()
@@ -106,6 +107,10 @@ def run_jobs(jobs, nworkers):
       res = w.run(j, j['timeout'] * 2 + 120)
       with lock:
         results[j['id']] = res
+        if len(results) % 50 == 0 or len(results) == len(jobs):
+          sys.stderr.write('[vf] %d/%d jobs done (%.0fs)\n' % (
+              len(results), len(jobs), time.time() - t_start))
+          sys.stderr.flush()
     w.kill()
   ths = [threading.Thread(target=loop) for _ in range(min(nworkers, len(jobs)))]
   for t in ths:
